@@ -356,5 +356,9 @@ LEVEL_TEXT = ("Coq theorems: soundness of the executable checker valid_funding (
 LEVEL_NOTE = ("Not proved: anything universal about CreateTransactionInternal, AvailableCoins or SelectCoins (checked per case). "
               "The property's sentence about subtract-fee recipients is sharpened by the code: without a change output the "
               "recipients pay the fee MINUS the surplus that was too small to become change (they may even receive more than "
-              "requested), with a change output exactly the fee; both are in the checker. Mempool acceptance is an executed oracle.")
+              "requested), with a change output exactly the fee; both are in the checker. Observation on 'not overpaying': ancestor bump "
+              "fees of PRESET inputs are charged per input (FetchSelectedInputs) and never discounted for shared ancestors, so two "
+              "preset coins from one low-feerate unconfirmed parent pay that parent's bump fee twice (e.g. fee 2268 where 1644 was "
+              "needed); the checker's r_bump follows the code's accounting and is checked to cover the real need. Mempool "
+              "acceptance is an executed oracle.")
 TECHNIQUE = "verified checker (Coq, extracted) run on the real wallet's output + mempool test-accept as second oracle"
